@@ -11,8 +11,13 @@ pub fn c14(ctx: &Ctx) -> Report {
     if let Err(e) = defaults_ok() {
         ctx.violation("C14:defaults-not-off", format!("[native-tls] {e}"), json!({"engine": "c14", "backend": "native-tls", "defaults": true}), 0);
     }
+    let double = double_tls_cells();
+    let n_double = 64u64;
+    for (sig, what, case) in double {
+        ctx.violation(sig, what, case, 1);
+    }
     let r = run_matrix();
-    let mut n = r.n;
+    let mut n = r.n + n_double;
     ctx.merge_outcomes(&r.outcomes);
     for (sig, what, case, rank) in r.violations {
         ctx.violation(sig, what, case, rank);
@@ -82,6 +87,11 @@ pub fn c14(ctx: &Ctx) -> Report {
 pub fn replay(v: &Value) -> i32 {
     if v["case"]["defaults"] == true {
         return if defaults_ok().is_err() { 1 } else { 0 };
+    }
+    if v["case"]["double_tls"] == true && v["case"]["backend"] != "rustls" {
+        let d = double_tls_cells();
+        println!("{d:?}");
+        return if d.is_empty() { 0 } else { 1 };
     }
     if v["case"]["wrong_key"] == true {
         let st = Command::new(RUSTLS_BIN).arg("--wrong-key").status().expect("vh-rustls");
